@@ -263,7 +263,7 @@ def h_conditional_quantiles(h):
         return h.arr(vals)
 
     m.conditional_sample = fake_sample
-    p = [0.3, 0.999]
+    p = [0.0004, 0.99999]     # both tails beyond the 100000 floor, so that the tail rule is visible in n
     pf = h.cfg["pf"]
     g = [h.real("g0", 0.5, 5.0), h.real("g1", 0.5, 5.0)]
     given = h.arr([[g[0]], [g[1]]])
